@@ -30,6 +30,10 @@ TEXT = {
          "reference classification VALID/MALFORMED/UNSPECIFIED", "rapidcheck PBT, mutation-based negative testing + ASan", "5/C17"),
  "C19": ("exploration", "The finite space of (functor, arity 1..9, position or (container,element) pair, argument category) is enumerated completely in every case, with random tagged contents; identity of forwarded objects and copy/move counters are the oracle.",
          "direct calls of the public functors (as the parser's reductors call them: rvalues) plus lvalue categories", "bounded-exhaustive enumeration of the position space driven by rapidcheck contents", "5/C19"),
+ "C13": ("exploration", "Generated grammars mixing '>=' and '>>=' functors; each input is parsed under four context categories and without context; identity, constness, value category, order and visibility of mutations are checked against the reference reduction order.",
+         "same as C01; functors log the address and type of the context they receive", "rapidcheck PBT, reference reduction order + identity/constness invariants over call sites", "5/C13"),
+ "C14": ("exploration", "Generated grammars over instrumented value types (copyable and move-only builds); a global registry of live objects and per-value ids decide leaks, double destruction, duplication, reuse after move and copies, on success, failure and recovery paths. A library change that makes move-only nonterminal values stop compiling is reported as a violation (the copyable control build must still compile).",
+         "same as C01; term payload copy inside term_value<T> is attributed to that class", "rapidcheck PBT, instrumented value type with live-object registry (history invariant)", "5/C14"),
  "C16": ("exploration", "Every input is parsed under all verbosity/stream combinations; results must agree and the verbose trace is replayed against the real table and the functor log of the same run.",
          "same as C01", "rapidcheck PBT, metamorphic (options) + trace replay invariant", "5/C16"),
 }
